@@ -130,6 +130,28 @@ Theorem C15_forward_refs_sources_dotted : forall imports n from,
 Proof. exact forward_refs_sources_dotted. Qed.
 Print Assumptions C15_forward_refs_sources_dotted.
 
+(* ---- ClientForwardRefs keeps every EVALUATED name bound [full; hypothesis: subscript heads are not package imports,
+        checked by the tie on every generated client]: names and heads the `def` statements evaluate keep their
+        global import, the validated class keeps it or gets the import placed in the method ---- *)
+Theorem C15_forward_refs_bound : forall c c',
+  fr_client c = Some c' ->
+  (forall m h, In m (cm_methods c) -> In h (sig_heads m) -> lookup h (fr_imported (cm_imports c)) = None) ->
+  forall m', In m' (cm_methods c') ->
+  exists m, In m (cm_methods c) /\
+    (forall n, In n (sig_eval m') -> imported (cm_imports c) n -> imported (cm_imports c') n) /\
+    (forall cls, fr_last_class (m_body m) = Some cls -> imported (cm_imports c) cls ->
+       imported (cm_imports c') cls \/ exists from, In (SImport 1 from cls) (m_body m')).
+Proof. exact forward_refs_bound. Qed.
+Print Assumptions C15_forward_refs_bound.
+
+(* ---- order dependence as a theorem: on a string annotation ShorterResults is the identity, whatever the class
+        dictionary [full] ---- *)
+Theorem C15_shorter_noop_after_forward_refs : forall st m,
+  (exists s, m_returns m = Some (AConst s)) \/ (exists h s, m_returns m = Some (ASub h [AConst s])) ->
+  sh_method st m = Some (st, m).
+Proof. exact shorter_noop_on_string_annotations. Qed.
+Print Assumptions C15_shorter_noop_after_forward_refs.
+
 (* ---- a concrete package: witnesses, non-vacuity, order dependence ---- *)
 Definition P (n : string) (a : ann) : param := {| p_name := n; p_ann := Some a; p_default := None |}.
 Definition mini_method : pmethod :=
@@ -243,3 +265,11 @@ Example C15_forward_refs_regression_custom_operations :
   option_map (fun c => map (fun i => src_of (i_level i) (i_module i)) (cm_imports c)) (fr_client custom_ops_client)
     = Some ["typing"; ".async_base_client"; ".input_types"; ".get_me"].
 Proof. vm_compute. split; reflexivity. Qed.
+
+(* the hypothesis of C15_forward_refs_bound holds for the example client (heads Optional are imported from typing) *)
+Example C15_forward_refs_bound_hypothesis :
+  let c := with_imports_methods (u_client mini) (cm_imports (u_client mini)) [mini_method] in
+  forallb (fun m => forallb (fun h => match lookup h (fr_imported (cm_imports c)) with None => true | Some _ => false end)
+                            (sig_heads m)) (cm_methods c) = true /\
+  sig_heads mini_method = ["Optional"] /\ fr_client c <> None.
+Proof. vm_compute. repeat split. discriminate. Qed.
